@@ -600,6 +600,30 @@ HARNESSES = [
       funcs=['UsernameCasePreserved::compare', 'enforce'], bound='one operand any string of 0..=1 characters over SIGMA_PIPE, first operand "a"'),
     H('C07', 'c07_const_preserved_k2', '$P::pipe_user::compare_const_username::<1, 4, 4, false, 2, true, _>', crate='profiles', unwind=5, stubs=('str', 'pipe4', 'pipe_bidi'), unwindset=pipe_us(1), timeout=1500, mem_gb=13,
       funcs=['UsernameCasePreserved::compare', 'enforce'], bound='one operand any string of 0..=1 characters over SIGMA_PIPE, first operand U+0020 (rejected: BadCodepoint)'),
+    H('C06', 'c06_witness_0', '$P::pipe::freeform_witnesses::<true, 0, _>', unwind=12, stubs=('str', 'pipe'), unwindset=pipe_us(2), timeout=1200, mem_gb=12,
+      funcs=['Nickname::enforce (real stabilize loop)'], bound='one constant multi-character string (witness #0), decided by constant folding'),
+    H('C06', 'c06_witness_1', '$P::pipe::freeform_witnesses::<true, 1, _>', unwind=12, stubs=('str', 'pipe'), unwindset=pipe_us(2), timeout=1200, mem_gb=12,
+      funcs=['Nickname::enforce (real stabilize loop)'], bound='one constant multi-character string (witness #1), decided by constant folding'),
+    H('C06', 'c06_witness_2', '$P::pipe::freeform_witnesses::<true, 2, _>', unwind=12, stubs=('str', 'pipe'), unwindset=pipe_us(2), timeout=1200, mem_gb=12,
+      funcs=['Nickname::enforce (real stabilize loop)'], bound='one constant multi-character string (witness #2), decided by constant folding'),
+    H('C06', 'c06_witness_3', '$P::pipe::freeform_witnesses::<true, 3, _>', unwind=12, stubs=('str', 'pipe'), unwindset=pipe_us(2), timeout=1200, mem_gb=12,
+      funcs=['Nickname::enforce (real stabilize loop)'], bound='one constant multi-character string (witness #3), decided by constant folding'),
+    H('C06', 'c06_witness_4', '$P::pipe::freeform_witnesses::<true, 4, _>', unwind=12, stubs=('str', 'pipe'), unwindset=pipe_us(2), timeout=1200, mem_gb=12,
+      funcs=['Nickname::enforce (real stabilize loop)'], bound='one constant multi-character string (witness #4), decided by constant folding'),
+    H('C06', 'c06_witness_5', '$P::pipe::freeform_witnesses::<true, 5, _>', unwind=12, stubs=('str', 'pipe'), unwindset=pipe_us(2), timeout=1200, mem_gb=12,
+      funcs=['Nickname::enforce (real stabilize loop)'], bound='one constant multi-character string (witness #5), decided by constant folding'),
+    H('C05', 'c05_witness_0', '$P::pipe::freeform_witnesses::<false, 0, _>', unwind=12, stubs=('str', 'pipe'), unwindset=pipe_us(2), timeout=1200, mem_gb=12,
+      funcs=['OpaqueString::enforce'], bound='one constant multi-character string (witness #0), decided by constant folding'),
+    H('C05', 'c05_witness_1', '$P::pipe::freeform_witnesses::<false, 1, _>', unwind=12, stubs=('str', 'pipe'), unwindset=pipe_us(2), timeout=1200, mem_gb=12,
+      funcs=['OpaqueString::enforce'], bound='one constant multi-character string (witness #1), decided by constant folding'),
+    H('C05', 'c05_witness_2', '$P::pipe::freeform_witnesses::<false, 2, _>', unwind=12, stubs=('str', 'pipe'), unwindset=pipe_us(2), timeout=1200, mem_gb=12,
+      funcs=['OpaqueString::enforce'], bound='one constant multi-character string (witness #2), decided by constant folding'),
+    H('C05', 'c05_witness_3', '$P::pipe::freeform_witnesses::<false, 3, _>', unwind=12, stubs=('str', 'pipe'), unwindset=pipe_us(2), timeout=1200, mem_gb=12,
+      funcs=['OpaqueString::enforce'], bound='one constant multi-character string (witness #3), decided by constant folding'),
+    H('C05', 'c05_witness_4', '$P::pipe::freeform_witnesses::<false, 4, _>', unwind=12, stubs=('str', 'pipe'), unwindset=pipe_us(2), timeout=1200, mem_gb=12,
+      funcs=['OpaqueString::enforce'], bound='one constant multi-character string (witness #4), decided by constant folding'),
+    H('C05', 'c05_witness_5', '$P::pipe::freeform_witnesses::<false, 5, _>', unwind=12, stubs=('str', 'pipe'), unwindset=pipe_us(2), timeout=1200, mem_gb=12,
+      funcs=['OpaqueString::enforce'], bound='one constant multi-character string (witness #5), decided by constant folding'),
     H('C06', 'c06_nickname_rounds', '$P::pipe::nickname_rounds', unwind=10, stubs=('str', 'pipe'), unwindset=pipe_us(2), timeout=900,
       funcs=['Profile::prepare/enforce of Nickname', 'Nickname::apply_prepare_rules/apply_enforce_rules', 'profile::stabilize', 'nicknames::trim_spaces/find_disallowed_space', 'StringClass::allows'], bound='the concrete input "a\\u00b4", whose NFKC form introduces a space (second round needed)'),
     H('C07', 'c07_compare_opaque_n1', '$P::pipe::compare_opaque::<1, 4, 4, _>', unwind=5, stubs=('str', 'pipe4'), unwindset=pipe_us(1), tiers=T, timeout=1500, mem_gb=44,
@@ -629,6 +653,22 @@ HARNESSES = [
       funcs=['Profile::prepare/enforce of UsernameCaseMapped and UsernameCasePreserved', 'usernames::width_mapping_rule', 'usernames::directionality_rule', 'bidi::has_rtl/satisfy_bidi_rule', 'common::case_mapping_rule', 'IdentifierClass::allows + context dispatch'], bound='strings of 0..=2 characters over SIGMA_PIPE (43 witnesses), both username profiles'),
     H('C04', 'c04_username_preserved_enforce_n2', '$P::pipe_user::username::<2, 8, 6, false, true, _>', crate='profiles', unwind=8, stubs=('str', 'pipe', 'pipe_bidi'), unwindset=pipe_us(2), tiers=T, timeout=3500, mem_gb=44,
       funcs=['Profile::prepare/enforce of UsernameCaseMapped and UsernameCasePreserved', 'usernames::width_mapping_rule', 'usernames::directionality_rule', 'bidi::has_rtl/satisfy_bidi_rule', 'common::case_mapping_rule', 'IdentifierClass::allows + context dispatch'], bound='strings of 0..=2 characters over SIGMA_PIPE (43 witnesses), both username profiles'),
+    H('C04', 'c04_witness_J_caron', '$P::pipe_user::order_witnesses::<0, _>', crate='profiles', unwind=12, stubs=('str', 'pipe', 'pipe_bidi'), unwindset=pipe_us(2), timeout=1200, mem_gb=12,
+      funcs=['enforce of both username profiles'], bound='one constant multi-character string (witness #0: J_caron), decided by constant folding'),
+    H('C04', 'c04_witness_fullwidthA_acute', '$P::pipe_user::order_witnesses::<1, _>', crate='profiles', unwind=12, stubs=('str', 'pipe', 'pipe_bidi'), unwindset=pipe_us(2), timeout=1200, mem_gb=12,
+      funcs=['enforce of both username profiles'], bound='one constant multi-character string (witness #1: fullwidthA_acute), decided by constant folding'),
+    H('C04', 'c04_witness_ohm_a', '$P::pipe_user::order_witnesses::<2, _>', crate='profiles', unwind=12, stubs=('str', 'pipe', 'pipe_bidi'), unwindset=pipe_us(2), timeout=1200, mem_gb=12,
+      funcs=['enforce of both username profiles'], bound='one constant multi-character string (witness #2: ohm_a), decided by constant folding'),
+    H('C04', 'c04_witness_alef_1', '$P::pipe_user::order_witnesses::<3, _>', crate='profiles', unwind=12, stubs=('str', 'pipe', 'pipe_bidi'), unwindset=pipe_us(2), timeout=1200, mem_gb=12,
+      funcs=['enforce of both username profiles'], bound='one constant multi-character string (witness #3: alef_1), decided by constant folding'),
+    H('C04', 'c04_witness_alef_arabic0_1', '$P::pipe_user::order_witnesses::<4, _>', crate='profiles', unwind=12, stubs=('str', 'pipe', 'pipe_bidi'), unwindset=pipe_us(2), timeout=1200, mem_gb=12,
+      funcs=['enforce of both username profiles'], bound='one constant multi-character string (witness #4: alef_arabic0_1), decided by constant folding'),
+    H('C04', 'c04_witness_a_ideographic_space', '$P::pipe_user::order_witnesses::<5, _>', crate='profiles', unwind=12, stubs=('str', 'pipe', 'pipe_bidi'), unwindset=pipe_us(2), timeout=1200, mem_gb=12,
+      funcs=['enforce of both username profiles'], bound='one constant multi-character string (witness #5: a_ideographic_space), decided by constant folding'),
+    H('C04', 'c04_witness_e_acute_alef', '$P::pipe_user::order_witnesses::<6, _>', crate='profiles', unwind=12, stubs=('str', 'pipe', 'pipe_bidi'), unwindset=pipe_us(2), timeout=1200, mem_gb=12,
+      funcs=['enforce of both username profiles'], bound='one constant multi-character string (witness #6: e_acute_alef), decided by constant folding'),
+    H('C04', 'c04_witness_fwA_fwA_caron', '$P::pipe_user::order_witnesses::<7, _>', crate='profiles', unwind=12, stubs=('str', 'pipe', 'pipe_bidi'), unwindset=pipe_us(2), timeout=1200, mem_gb=12,
+      funcs=['enforce of both username profiles'], bound='one constant multi-character string (witness #7: fwA_fwA_caron), decided by constant folding'),
     H('C04', 'c04_binding', '$P::pipe_user::binding_username', crate='profiles', unwind=8, stubs=('str', 'pipe', 'pipe_bidi'), unwindset=pipe_us(2), timeout=900,
       funcs=['Rules methods of both username profiles (bindings and defaults)'], bound='concrete witnesses (binding of each rule)'),
     H('C07', 'c07_compare_username_n1', '$P::pipe_user::compare_username::<1, 4, 4, _>', crate='profiles', unwind=5, stubs=('str', 'pipe4', 'pipe_bidi'), unwindset=pipe_us(1), tiers=T, timeout=1500, mem_gb=44,
